@@ -12,7 +12,7 @@ ASSUMPTIONS = ["time items strictly increasing", "survival table in [0,1]; diago
                "scipy kernels are functions of their arguments (uninterpreted, congruence only) in the time-shift harness",
                "scipy.linalg.solve_triangular satisfies its documented contract"]
 OUTSIDE = ["n beyond the bound", "IEEE rounding"]
-VARIANTS = "impulse and causal on a model computed before; plain per-label parameter vectors; np.allclose by numpy's definition in the scaling harness"
+VARIANTS = "impulse and causal on a model computed before; plain per-label parameter vectors; np.allclose by numpy's definition in the scaling harness; causality with the shipped classes (start / middle)"
 BOUNDS = {"quick": dict(n=[3, 4], labels=2, grids=dsm.GRIDS, linearity_stock_driven="n=3 only"), "thorough": dict(n=[3, 4, 5, 6], labels="2 and 2x2", grids=dsm.GRIDS, linearity_stock_driven="n=3 only")}
 for _t in BOUNDS.values():
     _t["variants_beyond_the_base_enumeration"] = VARIANTS
